@@ -69,6 +69,14 @@ print(e, f, g)
             return s
         case P(a=1, b=z) if z:
             return z
+        case {**everything}:
+            return everything
+        case {}:
+            return None
+        case [*_]:
+            return []
+        case [] | [_]:
+            return ()
         case _:
             pass
     try:
